@@ -31,6 +31,8 @@ def known_type(E, v):
         return 'bool'
     if isinstance(v, VS):
         return 'str'
+    if isinstance(v, VBy):
+        return 'bytes'
     if isinstance(v, VR):
         return 'float'
     if isinstance(v, VT):
@@ -82,6 +84,13 @@ def binop(E, op, a, b):
         if op == 'Mod':      # plain format string % tainted value: str(value) is the raw text
             return binop(E, op, a, _T.raw(E, b))
         raise Unsupported('operator %s on a TaintedString' % op)
+    from . import bytesmodel as _BM
+    if isinstance(a, VBy) or isinstance(b, VBy):
+        if op == 'Add':
+            return _BM.add(E, a, b)
+        raise Unsupported('operator %s on symbolic bytes' % op)
+    if op == 'Mult' and isinstance(a, VC) and isinstance(a.v, bytes) and not isinstance(b, VC) and known_type(E, b) in ('int', 'bool'):
+        return _BM.mult(E, a, b)
     # concrete folding
     if isinstance(a, VC) and isinstance(b, VC):
         try:
@@ -282,6 +291,9 @@ def val_eq(E, a, b):
     if isinstance(a, VC) and isinstance(b, VC):
         return a.v == b.v
     ta, tb = known_type(E, a), known_type(E, b)
+    if ta == 'bytes' and tb == 'bytes' and (isinstance(a, VBy) or isinstance(b, VBy)):
+        from . import bytesmodel as _BM
+        return _BM.eq(E, a, b)
     num = ('int', 'bool')
     if ta in num and tb in num:
         return E.as_z3_int(a) == E.as_z3_int(b)
@@ -754,6 +766,9 @@ def getslice(E, obj, lo, hi):
             return VC(obj.v[(lo.v if lo else None):(hi.v if hi else None)])
         if isinstance(obj.v, str):
             obj = VS(S(obj.v))
+    if isinstance(obj, VBy) or (isinstance(obj, VC) and isinstance(obj.v, bytes)):
+        from . import bytesmodel as _BM
+        return _BM.getslice(E, obj, lo, hi)
     if isinstance(obj, VS) or (isinstance(obj, VO) and E.tfacts.get((obj.name, 'str'))):
         s = E.as_z3_str(obj)
         n = z3.Length(s)
@@ -984,6 +999,10 @@ def getattr_(E, obj, name):
             return VC(obj.name)
         if name == '__bases__':
             return VT(obj.bases)
+        _raise('AttributeError', name)
+    if isinstance(obj, VBy):
+        if hasattr(bytes, name):
+            return VBM(VBI('bytes.' + name), obj)
         _raise('AttributeError', name)
     if isinstance(obj, VC) and isinstance(obj.v, (str, bytes)) or isinstance(obj, VS):
         if name in STR_METHODS or hasattr(bytes if (isinstance(obj, VC) and isinstance(obj.v, bytes)) else str, name):
